@@ -576,6 +576,16 @@ theorem dendroTree_inner {ν : Nums} (hν : SafeNums ν) (a : DendroArgs) (hcol 
 
 /-! ### the document -/
 
+theorem writeFile_svg {fn : Option PyStr} {doc : List Piece} {d : Drawing} (h : writeFile fn doc = .ok d) :
+    d.svg = doc := by
+  unfold writeFile at h
+  split at h
+  · simp only [Except.ok.injEq] at h; subst h; rfl
+  · split at h
+    · simp only [Except.ok.injEq] at h; subst h; rfl
+    · simp at h
+
+
 theorem svgDoc_wf {ν : Nums} (hν : SafeNums ν) (twoBlanks newlines : Bool) {body : List Piece} (hb : Inner body) :
     wf (render (svgDoc ν twoBlanks newlines body)) = true := by
   unfold svgDoc
